@@ -244,3 +244,40 @@ def run(F, ctx):
             ctx.violation(JP + "::plan_joins:R-C02-d:rebuild-by-name-with-duplicate-names", "the reordered join tree is rebuilt by column name, but nothing keeps trees out whose leaf carries one variable in two columns (an atom such as e(X,X)): keys and projections looked up by name land on the wrong column - `q(X,Z) <- m(X,Z), e(X,X)` returns 2 rows with join planning on and 3 with it off", r_.where())
     ctx.end_rule()
 
+    # ---- e: magic sets restrict a relation for all of its readers
+    ctx.rule("R-C02-e", "the magic-set rewrite is applied only when the bound relation has a single reader outside its own definition", floor=1)
+    am = F.fn("IQLEngine::apply_magic_sets")
+    rw = [c for c in am.normal_calls() if (c.resolved or "").endswith("MagicSetRewriter::rewrite_program")]
+    if not rw:
+        raise CheckError("apply_magic_sets no longer calls rewrite_program (anchor moved)")
+    guards_e = []
+    for c in am.normal_calls():
+        if not re.search(r"Iterator>::(all|any)::<", c.static_args or ""):
+            continue
+        # the quantified test looks at the relation names of body atoms and counts them
+        reads_rel = counts = False
+        for a in c.args:
+            clo = a.get("clo")
+            al = op_local(a)
+            for i_ in range(am.n):
+                for st in am.stmts(i_):
+                    rv = st["r"]
+                    if al is not None and st["d"]["l"] == al and rv.get("k") == "agg" and rv.get("ak") == "closure":
+                        clo = rv["def"]
+            if clo and clo in F.bodies:
+                for n2 in F.with_closures(clo):
+                    g2 = F.fn(n2)
+                    if any(a2 == "ast::Atom" and fld == "relation" for (b2, kind, a2, fld, line, pl2) in g2.field_accesses()):
+                        reads_rel = True
+                    if any(re.search(r"Iterator>::count$", x.static_args or "") or re.search(r"::len$", x.static_args or "") for x in g2.normal_calls()):
+                        counts = True
+        br = common.branch_on_result(am, c)
+        if reads_rel and counts and br:
+            guards_e.append((c, br))
+    for r_ in rw:
+        ok = any(am.dominates(br[1], r_.bb) != am.dominates(br[2], r_.bb) for (_c, br) in guards_e)
+        ctx.site("rewrite_program is reached only on one side of a reader-count test over the program's body atoms", r_.where(), ok=ok, reader_count_guards=len(guards_e))
+        if not ok:
+            ctx.violation("IQLEngine::apply_magic_sets:R-C02-e:rewrite-with-several-readers", "the magic-set rewrite replaces the bound relation by its demanded part for every reader, and nothing checks that the bound query atom is its only reader: `?reach(1,Y), reach(10,Z)` and a rule `far(X,Y) <- reach(X,Y), X >= 10` next to `?reach(1,Y), far(A,B)` return no rows with magic sets on and 6 / 9 rows with them off", r_.where())
+    ctx.end_rule()
+
